@@ -57,6 +57,9 @@ type Hub struct {
 
 	hasStarted bool
 
+	// the hub was shut down, no connections are initiated any more
+	hasShutdown bool
+
 	// pairing detail updates are reported in the order they were created
 	// the sequence number of the most recently created and of the most recently reported update per SKI
 	pairingUpdateCreated  map[string]uint64
@@ -115,6 +118,10 @@ func (h *Hub) Start() {
 
 // close all connections
 func (h *Hub) Shutdown() {
+	h.muxStarted.Lock()
+	h.hasShutdown = true
+	h.muxStarted.Unlock()
+
 	h.mdns.Shutdown()
 	for _, c := range h.connections {
 		c.CloseConnection(false, 0, "")
@@ -161,6 +168,10 @@ func (h *Hub) numberPairedServices() int {
 
 // startup mDNS if a paired service is not connected
 func (h *Hub) checkAutoReannounce() {
+	if h.checkHasShutdown() {
+		return
+	}
+
 	countPairedServices := h.numberPairedServices()
 	h.muxCon.Lock()
 	countConnections := len(h.connections)
